@@ -5,9 +5,6 @@
 //     like `dis`, for any CPU: loads the bytes at <addr> (CPU's endianness), calls the single-instruction
 //     disassembler that belongs to cpu_list[cpu].disasm_range with a 128-byte heap buffer
 //     -> <len> <hex of text> | nonul <len>
-// walkx <cpu> <start hex> <end hex> <hex bytes>
-//     runs the real disasm_range of the CPU with stdout captured -> the address column (hex, comma separated,
-//     as printed: address units of the CPU), in print order; lines that are not "0x..: " lines are ignored
 #ifndef NV_CMD_ISA_ALL_H
 #define NV_CMD_ISA_ALL_H
 
@@ -69,6 +66,9 @@
 #include "disasm/xtensa.h"
 #include "disasm/z80.h"
 
+// defined in disasm/msp430.cpp, not declared in its header
+int disasm_msp430x(Memory *memory, uint32_t address, char *instruction, int length, int flags, int *cycles_min, int *cycles_max);
+
 struct IsaAllCpu { disasm_range_t range; disasm_one_t one; };
 static IsaAllCpu isa_all[] =
 {
@@ -103,7 +103,7 @@ static IsaAllCpu isa_all[] =
   { disasm_range_m8c, disasm_m8c },
   { disasm_range_mips, disasm_mips },
   { disasm_range_msp430, disasm_msp430 },
-  { disasm_range_msp430x, disasm_msp430 },
+  { disasm_range_msp430x, disasm_msp430x },
   { disasm_range_pdk13, disasm_pdk13 },
   { disasm_range_pdk14, disasm_pdk14 },
   { disasm_range_pdk15, disasm_pdk15 },
@@ -182,22 +182,40 @@ static std::string cmd_disx(const std::vector<std::string> &args)
 }
 
 
-// disxb <cpu> <addr hex> <tail hex> <from> <to>
-//     batch form for the sweeps: for every 16-bit prefix p in [from, to) the bytes (p >> 8, p & 0xff, tail...) are
-//     placed at <addr> and disassembled; then every byte after the reported length is complemented and the
-//     instruction is disassembled again (locality).  Answer:
-//       n=<count> max=<largest length> bad=<p:kind:len;...>   kinds: nonul, short (len < unit), nonlocal
-//     plus lens=<histogram len:count,...>.  `unit` = bytes_per_address of the CPU (1 if 0).
-static std::string cmd_disxb(const std::vector<std::string> &args)
+// disxb <cpu> <addr hex> <tail hex> <from> <to> [<off>]
+//     batch form for the sweeps: for every 16-bit pattern p in [from, to) the bytes
+//     (tail[0..off), p >> 8, p & 0xff, tail[off..]) are placed at <addr> (off = 0 when absent: p leads; off = 2
+//     puts p into the upper half-word of a little-endian 32-bit instruction) and disassembled; then every byte
+//     after the reported length is complemented and the instruction is disassembled again (locality).  Answer:
+//       n=<count> max=<largest length> nbad=<n> unexplored=<n> bad=<p:kind:len;...> lens=<histogram len:count,...>
+//     kinds: nonul, short (len < unit), nonlocal, crash (sanitizer report / signal), hang (20 s).
+//     `unit` = bytes_per_address of the CPU (1 if 0).
+//     The loop runs in a forked child that keeps its results in shared memory: when the child dies on a pattern
+//     the pattern is recorded as crash/hang and a new child continues behind it, so a crashing decoder costs one
+//     fork per crash and not a restart of the harness; after DISXB_CRASH_CAP crashes the rest of [from, to) is
+//     reported as unexplored.
+#include <sys/wait.h>
+#include <set>
+#define DISXB_CRASH_CAP 8
+struct DisxbShared
 {
-  if (args.size() != 5) { return "bad-op"; }
-  CpuList *cpu = isa_find_cpu(args[0]);
-  if (cpu == NULL) { return "bad-op"; }
-  disasm_one_t f = isa_all_find(cpu);
-  if (f == NULL) { return "bad-op"; }
-  uint32_t addr = (uint32_t)strtoul(args[1].c_str(), NULL, 16);
-  std::string tail = unhex(args[2]);
-  int from = atoi(args[3].c_str()), to = atoi(args[4].c_str());
+  int cur, count, maxlen, nbad, badlen, hn;
+  int hist_len[256], hist_cnt[256];
+  char bad[1 << 17];
+};
+
+static void disxb_bad(DisxbShared *sh, int p, const char *kind, int len)
+{
+  sh->nbad++;
+  if (sh->badlen + 64 < (int)sizeof(sh->bad))
+  {
+    sh->badlen += snprintf(sh->bad + sh->badlen, 64, "%s%04x:%s:%d", sh->badlen == 0 ? "" : ";", p, kind, len);
+  }
+}
+
+static void disxb_child(DisxbShared *sh, CpuList *cpu, disasm_one_t f, uint32_t addr, const std::string &tail,
+                        size_t off, int from, int to)
+{
   int unit = cpu->bytes_per_address > 0 ? cpu->bytes_per_address : 1;
   const int size = 128;
   const int total = 2 + (int)tail.size();
@@ -205,25 +223,20 @@ static std::string cmd_disxb(const std::vector<std::string> &args)
   char *text2 = (char *)malloc(size);
   Memory *memory = new Memory();
   memory->endian = cpu->default_endian;
-  std::map<int,int> hist;
-  std::string bad;
-  int nbad = 0, maxlen = 0, count = 0;
   signal(SIGALRM, isa_alarm);
   for (int p = from; p < to; p++)
   {
-    std::string bytes;
+    sh->cur = p;
+    std::string bytes = tail.substr(0, off);
     bytes += (char)(p >> 8);
     bytes += (char)(p & 0xff);
-    bytes += tail;
+    bytes += tail.substr(off);
     for (int i = 0; i < total; i++) { memory->write8(addr + i, (uint8_t)bytes[i]); }
     memset(text1, 0x55, size);
     int c0 = 0, c1 = 0;
     alarm(20);
     int len1 = f(memory, addr, text1, size, cpu->flags, &c0, &c1);
     alarm(0);
-    count++;
-    hist[len1]++;
-    if (len1 > maxlen) { maxlen = len1; }
     const char *kind = NULL;
     if (memchr(text1, 0, size) == NULL) { kind = "nonul"; }
     else if (len1 < unit) { kind = "short"; }
@@ -236,33 +249,356 @@ static std::string cmd_disxb(const std::vector<std::string> &args)
       alarm(0);
       if (len2 != len1 || memchr(text2, 0, size) == NULL || strcmp(text1, text2) != 0) { kind = "nonlocal"; }
     }
-    if (kind != NULL)
+    // results of this pattern (only now: a pattern that kills the child is recorded by the parent)
+    sh->count++;
+    if (len1 > sh->maxlen) { sh->maxlen = len1; }
+    int h;
+    for (h = 0; h < sh->hn && sh->hist_len[h] != len1; h++) { }
+    if (h == sh->hn && sh->hn < 256) { sh->hist_len[h] = len1; sh->hist_cnt[h] = 0; sh->hn++; }
+    if (h < 256) { sh->hist_cnt[h]++; }
+    if (kind != NULL) { disxb_bad(sh, p, kind, len1); }
+  }
+  sh->cur = to;
+}
+
+static std::string cmd_disxb(const std::vector<std::string> &args)
+{
+  if (args.size() != 5 && args.size() != 6) { return "bad-op"; }
+  CpuList *cpu = isa_find_cpu(args[0]);
+  if (cpu == NULL) { return "bad-op"; }
+  disasm_one_t f = isa_all_find(cpu);
+  if (f == NULL) { return "bad-op"; }
+  uint32_t addr = (uint32_t)strtoul(args[1].c_str(), NULL, 16);
+  std::string tail = unhex(args[2]);
+  int from = atoi(args[3].c_str()), to = atoi(args[4].c_str());
+  size_t off = args.size() == 6 ? (size_t)atoi(args[5].c_str()) : 0;
+  if (off > tail.size()) { return "bad-op"; }
+  DisxbShared *sh = (DisxbShared *)mmap(NULL, sizeof(DisxbShared), PROT_READ | PROT_WRITE, MAP_SHARED | MAP_ANONYMOUS, -1, 0);
+  if (sh == MAP_FAILED) { return "bad-op"; }
+  memset(sh, 0, sizeof(DisxbShared));
+  sh->cur = from;
+  int crashes = 0, unexplored = 0;
+  int next = from;
+  while (next < to)
+  {
+    fflush(stdout);
+    fflush(ans);
+    pid_t pid = fork();
+    if (pid < 0) { munmap(sh, sizeof(DisxbShared)); return "bad-op"; }
+    if (pid == 0)
     {
-      nbad++;
-      if (nbad <= 4096)
-      {
-        char buf[64];
-        snprintf(buf, sizeof(buf), "%s%04x:%s:%d", bad.empty() ? "" : ";", p, kind, len1);
-        bad += buf;
-      }
+      int devnull = open("/dev/null", O_WRONLY);
+      if (devnull >= 0) { dup2(devnull, 2); }
+      disxb_child(sh, cpu, f, addr, tail, off, next, to);
+      _exit(0);
     }
+    int status = 0;
+    waitpid(pid, &status, 0);
+    if (WIFEXITED(status) && WEXITSTATUS(status) == 0 && sh->cur >= to) { break; }
+    // the child died while working on pattern sh->cur
+    int p = sh->cur;
+    if (p < next || p >= to) { p = next; }
+    disxb_bad(sh, p, WIFEXITED(status) && WEXITSTATUS(status) == 97 ? "hang" : "crash", 0);
+    sh->count++;
+    crashes++;
+    next = p + 1;
+    if (crashes >= DISXB_CRASH_CAP) { unexplored = to - next; break; }
   }
   capture_take();
-  free(text1);
-  free(text2);
-  delete memory;
-  char head[96];
-  snprintf(head, sizeof(head), "n=%d max=%d nbad=%d bad=", count, maxlen, nbad);
-  std::string out = head + (bad.empty() ? std::string("-") : bad) + " lens=";
-  bool first = true;
-  for (std::map<int,int>::iterator it = hist.begin(); it != hist.end(); ++it)
+  char head[128];
+  snprintf(head, sizeof(head), "n=%d max=%d nbad=%d unexplored=%d bad=", sh->count, sh->maxlen, sh->nbad, unexplored);
+  std::string out = head + (sh->badlen == 0 ? std::string("-") : std::string(sh->bad, sh->badlen)) + " lens=";
+  for (int h = 0; h < sh->hn; h++)
   {
     char buf[48];
-    snprintf(buf, sizeof(buf), "%s%d:%d", first ? "" : ",", it->first, it->second);
+    snprintf(buf, sizeof(buf), "%s%d:%d", h == 0 ? "" : ",", sh->hist_len[h], sh->hist_cnt[h]);
     out += buf;
-    first = false;
+  }
+  if (sh->hn == 0) { out += "-"; }
+  munmap(sh, sizeof(DisxbShared));
+  return out;
+}
+
+
+// Two-pass assembly of ONE statement at <addr>, exactly the path of `asm1` (cmd_isa.h).
+// returns 0 and the bytes when they form one run that starts at addr, 1 when the assembly succeeded with
+// another image (nothing, padding, several runs), -1 when a pass failed or an "Error" line was printed.
+static int isa_asm_text(CpuList *cpu, uint32_t addr, const std::string &stmt, std::string &bytes)
+{
+  char head[96];
+  snprintf(head, sizeof(head), ".%s\n.org 0x%x\n", cpu->name, addr / (cpu->bytes_per_address ? cpu->bytes_per_address : 1));
+  std::string source = std::string(head) + stmt + "\n";
+  AsmContext *ctx = new AsmContext();
+  ctx->quiet_output = 1;
+  tokens_open_buffer(ctx, source.c_str());
+  ctx->tokens.filename = "asm1";
+  ctx->init();
+  int error_flag = ctx->assemble();
+  do
+  {
+    if (error_flag == 0 && ctx->link() != 0) { error_flag = 1; }
+    if (error_flag != 0) { break; }
+    ctx->symbols.lock();
+    ctx->symbols.scope_reset();
+    ctx->pass = 2;
+    ctx->init();
+    error_flag = ctx->assemble();
+    if (error_flag != 0) { break; }
+    if (ctx->link() != 0) { error_flag = 1; break; }
+  } while (0);
+  std::string printed = capture_take();
+  int rc = -1;
+  bytes.clear();
+  if (error_flag == 0 && count_errors(printed) == 0)
+  {
+    // every byte whose debug marker is not DL_EMPTY (what dump_image of cmd_prog.h lists), found by a scan that
+    // skips the empty markers (memset to -1) two at a time
+    std::vector<std::pair<uint64_t, uint8_t> > img;
+    for (MemoryPage *pg = ctx->memory.pages; pg != nullptr; pg = pg->next)
+    {
+      for (uint32_t o = 0; o < PAGE_SIZE; o += 2)
+      {
+        uint64_t two;
+        memcpy(&two, &pg->debug_line[o], sizeof(two));
+        if (two == ~(uint64_t)0) { continue; }
+        for (uint32_t k = o; k < o + 2; k++)
+        {
+          if (pg->debug_line[k] != DL_EMPTY) { img.push_back(std::make_pair((uint64_t)pg->address + k, pg->bin[k])); }
+        }
+      }
+    }
+    std::sort(img.begin(), img.end());
+    rc = img.empty() || img[0].first != addr ? 1 : 0;
+    for (size_t i = 0; rc == 0 && i < img.size(); i++)
+    {
+      if (img[i].first != (uint64_t)addr + i) { rc = 1; }
+    }
+    if (rc == 0)
+    {
+      for (size_t i = 0; i < img.size(); i++) { bytes.push_back((char)img[i].second); }
+    }
+  }
+  delete ctx;
+  return rc;
+}
+
+// rtxb <cpu> <addr hex> <tail hex> <from> <to> <off> <k>
+//     decode -> encode -> decode over 16-bit patterns (same byte strings as disxb): the instruction at <addr> is
+//     disassembled (text T, length n); every distinct instruction bytes[0..n) whose text has no '?' is assembled
+//     at <addr> through the path of asm1; when the assembler accepts T with bytes B' != bytes[0..n), B' (followed
+//     by the bytes that followed the instruction) is disassembled again (text T').  Answer:
+//       n=<patterns> uniq=<instructions assembled> acc=<accepted> same=<same bytes> more=<records dropped>
+//       unexplored=<n> rec=<p,hex T,hex B',hex T'|crash|hang;...>
+//     Only the cases with other bytes are returned (the caller compares T and T' after numeric normalisation).
+//     k > 0 limits the work to the first k instructions of every SHAPE (text with each number replaced by '#') in
+//     [from, to), in pattern order; k = 0 takes every distinct instruction.  The k-limited set is a subset of the
+//     unlimited one.  Runs in a forked child like disxb (a hang costs 5 s; after 8 crashes/hangs the rest of the
+//     range is reported as unexplored).
+struct RtxbShared
+{
+  int cur, count, uniq, acc, same, more, reclen;
+  char rec[1 << 20];
+};
+
+static void rtxb_rec(RtxbShared *sh, const std::string &r)
+{
+  if (sh->reclen + (int)r.size() + 2 >= (int)sizeof(sh->rec)) { sh->more++; return; }
+  if (sh->reclen != 0) { sh->rec[sh->reclen++] = ';'; }
+  memcpy(sh->rec + sh->reclen, r.data(), r.size());
+  sh->reclen += (int)r.size();
+}
+
+// text with every number (a token that starts with a digit or '$'/'#'-prefixed hex and is not part of an identifier)
+// replaced by '#'
+static std::string rtxb_shape(const char *t)
+{
+  std::string out;
+  for (size_t i = 0; t[i] != 0; )
+  {
+    unsigned char c = (unsigned char)t[i];
+    bool ident_before = i > 0 && (isalnum((unsigned char)t[i - 1]) || t[i - 1] == '_' || t[i - 1] == '.');
+    if (isdigit(c) && !ident_before)
+    {
+      while (isalnum((unsigned char)t[i])) { i++; }
+      out += '#';
+      continue;
+    }
+    out += (char)c;
+    i++;
   }
   return out;
+}
+
+// the text without a trailing annotation " (14)" / " (offset=-2)" (see ANNOT in tools/cpu_sweep.py: blank-separated,
+// purely decimal, behind an operand)
+static std::string rtxb_instr_text(const char *t)
+{
+  std::string s(t);
+  size_t e = s.size();
+  while (e > 0 && (s[e - 1] == ' ' || s[e - 1] == '\t')) { e--; }
+  if (e == 0 || s[e - 1] != ')') { return s; }
+  size_t open = s.rfind('(', e - 1);
+  if (open == std::string::npos || open == 0) { return s; }
+  size_t i = open + 1;
+  if (s.compare(i, 7, "offset=") == 0) { i += 7; }
+  if (i < e - 1 && s[i] == '-') { i++; }
+  if (i >= e - 1) { return s; }
+  for (size_t j = i; j < e - 1; j++) { if (!isdigit((unsigned char)s[j])) { return s; } }
+  size_t b = open;
+  if (s[b - 1] != ' ' && s[b - 1] != '\t') { return s; }
+  while (b > 0 && (s[b - 1] == ' ' || s[b - 1] == '\t')) { b--; }
+  if (b == 0) { return s; }
+  // the token before the annotation is an operand that contains a digit (the target address)
+  bool digit = false;
+  for (size_t j = b; j > 0; j--)
+  {
+    unsigned char c = (unsigned char)s[j - 1];
+    if (c == ' ' || c == '\t' || c == ',' || c == '(') { break; }
+    if (isdigit(c)) { digit = true; }
+  }
+  if (!digit) { return s; }
+  return s.substr(0, b);
+}
+
+static void rtxb_child(RtxbShared *sh, CpuList *cpu, disasm_one_t f, uint32_t addr, const std::string &tail,
+                       size_t off, int from, int to, int k)
+{
+  std::map<std::string, int> shapes;
+  const int size = 128;
+  const int total = 2 + (int)tail.size();
+  char *text1 = (char *)malloc(size);
+  char *text2 = (char *)malloc(size);
+  Memory *memory = new Memory();
+  memory->endian = cpu->default_endian;
+  std::set<std::string> seen;
+  signal(SIGALRM, isa_alarm);
+  for (int p = from; p < to; p++)
+  {
+    sh->cur = p;
+    std::string bytes = tail.substr(0, off);
+    bytes += (char)(p >> 8);
+    bytes += (char)(p & 0xff);
+    bytes += tail.substr(off);
+    for (int i = 0; i < total; i++) { memory->write8(addr + i, (uint8_t)bytes[i]); }
+    memset(text1, 0x55, size);
+    int c0 = 0, c1 = 0;
+    alarm(5);
+    int len1 = f(memory, addr, text1, size, cpu->flags, &c0, &c1);
+    sh->count++;
+    if (len1 <= 0 || len1 > total || memchr(text1, 0, size) == NULL) { alarm(0); continue; }   // C08's business
+    if (text1[0] == 0 || strchr(text1, '?') != NULL) { alarm(0); continue; }
+    std::string key = bytes.substr(0, len1);
+    if (!seen.insert(key).second) { alarm(0); continue; }
+    if (k > 0 && ++shapes[rtxb_shape(text1)] > k) { alarm(0); continue; }
+    sh->uniq++;
+    std::string b2;
+    int rc = isa_asm_text(cpu, addr, rtxb_instr_text(text1), b2);
+    if (rc != 0) { alarm(0); continue; }
+    sh->acc++;
+    if (b2 == key) { sh->same++; alarm(0); continue; }
+    std::string after = b2 + bytes.substr(len1);
+    for (size_t i = 0; i < after.size(); i++) { memory->write8(addr + i, (uint8_t)after[i]); }
+    memset(text2, 0x55, size);
+    f(memory, addr, text2, size, cpu->flags, &c0, &c1);
+    alarm(0);
+    // restore what the longer image may have written behind the pattern bytes
+    for (size_t i = total; i < after.size(); i++) { memory->write8(addr + i, 0); }
+    char pb[16];
+    snprintf(pb, sizeof(pb), "%04x,", p);
+    std::string t2 = memchr(text2, 0, size) == NULL ? std::string("") : std::string(text2);
+    rtxb_rec(sh, std::string(pb) + tohex(std::string(text1)) + "," + tohex(b2) + "," + tohex(t2));
+  }
+  sh->cur = to;
+}
+
+static std::string cmd_rtxb(const std::vector<std::string> &args)
+{
+  if (args.size() != 7) { return "bad-op"; }
+  CpuList *cpu = isa_find_cpu(args[0]);
+  if (cpu == NULL) { return "bad-op"; }
+  disasm_one_t f = isa_all_find(cpu);
+  if (f == NULL) { return "bad-op"; }
+  uint32_t addr = (uint32_t)strtoul(args[1].c_str(), NULL, 16);
+  std::string tail = unhex(args[2]);
+  int from = atoi(args[3].c_str()), to = atoi(args[4].c_str());
+  size_t off = (size_t)atoi(args[5].c_str());
+  int k = atoi(args[6].c_str());
+  if (off > tail.size()) { return "bad-op"; }
+  RtxbShared *sh = (RtxbShared *)mmap(NULL, sizeof(RtxbShared), PROT_READ | PROT_WRITE, MAP_SHARED | MAP_ANONYMOUS, -1, 0);
+  if (sh == MAP_FAILED) { return "bad-op"; }
+  sh->cur = from; sh->count = sh->uniq = sh->acc = sh->same = sh->more = sh->reclen = 0;
+  int crashes = 0, unexplored = 0, next = from;
+  while (next < to)
+  {
+    fflush(stdout);
+    fflush(ans);
+    pid_t pid = fork();
+    if (pid < 0) { munmap(sh, sizeof(RtxbShared)); return "bad-op"; }
+    if (pid == 0)
+    {
+      int devnull = open("/dev/null", O_WRONLY);
+      if (devnull >= 0) { dup2(devnull, 2); }
+      rtxb_child(sh, cpu, f, addr, tail, off, next, to, k);
+      _exit(0);
+    }
+    int status = 0;
+    waitpid(pid, &status, 0);
+    if (WIFEXITED(status) && WEXITSTATUS(status) == 0 && sh->cur >= to) { break; }
+    int p = sh->cur;
+    if (p < next || p >= to) { p = next; }
+    char pb[32];
+    snprintf(pb, sizeof(pb), "%04x,%s", p, WIFEXITED(status) && WEXITSTATUS(status) == 97 ? "hang" : "crash");
+    rtxb_rec(sh, pb);
+    crashes++;
+    next = p + 1;
+    if (crashes >= DISXB_CRASH_CAP) { unexplored = to - next; break; }
+  }
+  capture_take();
+  char head[160];
+  snprintf(head, sizeof(head), "n=%d uniq=%d acc=%d same=%d more=%d unexplored=%d rec=", sh->count, sh->uniq, sh->acc,
+           sh->same, sh->more, unexplored);
+  std::string out = head + (sh->reclen == 0 ? std::string("-") : std::string(sh->rec, sh->reclen));
+  munmap(sh, sizeof(RtxbShared));
+  return out;
+}
+
+
+// walkx <cpu> <start hex> <end hex> <hex bytes>
+//     like `walk` (real disasm_range of cpu_list with stdout captured), but format-agnostic: for every printed line
+//     that has a ':' within its first 24 characters the text before that ':' is returned (hex encoded, comma
+//     separated, print order); the caller knows the address format of the CPU (0x%04x, octal 0%04o, tms1000's
+//     linear|pc page/lsfr, ...).  "-" if there is no such line.
+static std::string cmd_walkx(const std::vector<std::string> &args)
+{
+  if (args.size() != 4) { return "bad-op"; }
+  CpuList *cpu = isa_find_cpu(args[0]);
+  if (cpu == NULL || cpu->disasm_range == NULL) { return "bad-op"; }
+  uint32_t start = (uint32_t)strtoul(args[1].c_str(), NULL, 16);
+  uint32_t end = (uint32_t)strtoul(args[2].c_str(), NULL, 16);
+  std::string bytes = unhex(args[3]);
+  Memory *memory = new Memory();
+  isa_load(memory, cpu, start, bytes);
+  capture_take();
+  signal(SIGALRM, isa_alarm);
+  alarm(10);
+  cpu->disasm_range(memory, cpu->flags, start, end);
+  alarm(0);
+  std::string printed = capture_take();
+  delete memory;
+  std::string out;
+  size_t pos = 0;
+  while (pos < printed.size())
+  {
+    size_t eol = printed.find('\n', pos);
+    if (eol == std::string::npos) { eol = printed.size(); }
+    std::string line = printed.substr(pos, eol - pos);
+    pos = eol + 1;
+    size_t colon = line.find(':');
+    if (colon == std::string::npos || colon == 0 || colon > 24) { continue; }
+    if (!out.empty()) { out += ","; }
+    out += tohex(line.substr(0, colon));
+  }
+  return out.empty() ? "-" : out;
 }
 
 
@@ -285,6 +621,8 @@ static void register_isa_all()
   handlers["disx"] = cmd_disx;
   handlers["cpus"] = cmd_cpus;
   handlers["disxb"] = cmd_disxb;
+  handlers["walkx"] = cmd_walkx;
+  handlers["rtxb"] = cmd_rtxb;
 }
 
 #endif
